@@ -222,11 +222,11 @@ TraceStage ==
                 \cup V(~ g.bad, "obs.callback_grammar")
                 \cup V(RecvOK(ln.evs), "obs.recv_tag")
                 \cup V(RecvValOK(ln.evs), "val.recv_copies_uend")
-                \cup V(cerr # "CommunicationError", "obs.no_comm_error")
-                \cup V(cerr # "ControllerError", "obs.no_controller_error")
-                \cup V(cerr \in {"none", "CommunicationError", "ControllerError", "ConvergenceError"}, "obs.no_other_error")
+                \cup V(ln.err # "CommunicationError", "obs.no_comm_error")
+                \cup V(ln.err # "ControllerError", "obs.no_controller_error")
+                \cup V(ln.err \in {"none", "CommunicationError", "ControllerError", "ConvergenceError"}, "obs.no_other_error")
           /\ st' = IF cerr = "none" THEN [mg EXCEPT !.uv = nx.uv, !.zv = nx.zv] ELSE [nx EXCEPT !.err = cerr]
-          /\ phase' = IF cerr = "none" THEN "run" ELSE ModelErrPhase(cerr)
+          /\ phase' = IF cerr = "none" THEN "run" ELSE ModelErrPhase(ln.err)
           /\ stats' = IF sg = "IT_CHECK" /\ cerr = "none" THEN StatsAfterCheck(stats, st, mg) ELSE stats
           /\ gram' = g.state
           /\ last' = IF cerr = "none" THEN ln ELSE last
